@@ -224,6 +224,19 @@ def native_harness(tier, seed):
                         if not np.allclose(np.asarray(m)[:, 1], np.asarray(x).reshape(-1), atol=1e-9, equal_nan=True):
                             fails.append('%s: window 1 differs from %s on that window' % (fw.__name__, plain.__name__))
                             break
+        # fewer than two windows (window longer than the signal): the framewise variants return the non-framewise result with the SAME
+        # compute_permutation setting, also when the estimates are in swapped order
+        T2 = 1400
+        ref2 = rs.randn(2, T2)
+        est2 = ref2[::-1] + 0.1 * rs.randn(2, T2)
+        for fw, plain, k_out in ((S.bss_eval_sources_framewise, S.bss_eval_sources, 4), (S.bss_eval_images_framewise, S.bss_eval_images, 5)):
+            for cp in (False, True):
+                out = fw(ref2, est2, window=4 * T2, hop=4 * T2, compute_permutation=cp)
+                want = plain(ref2, est2, cp)
+                n += 1
+                if not all(np.allclose(np.asarray(a_).reshape(-1), np.asarray(b_).reshape(-1), atol=1e-9, equal_nan=True) for a_, b_ in zip(out, want)):
+                    fails.append('%s with a single window (compute_permutation=%s) differs from %s: perm %s vs %s' % (
+                        fw.__name__, cp, plain.__name__, np.asarray(out[-1]).reshape(-1).tolist(), np.asarray(want[-1]).reshape(-1).tolist()))
         for f, k_out in ((S.bss_eval_sources, 4), (S.bss_eval_sources_framewise, 4), (S.bss_eval_images, 5), (S.bss_eval_images_framewise, 5)):
             out = f(np.zeros((0, 0)), np.zeros((0, 0)))
             n += 1
